@@ -32,6 +32,10 @@ type config struct {
 	GC        bool
 	Reopen    bool
 	Macro     bool
+	// L0L0: macro mode, but once L0 holds >= 4 tables a bare rotate is offered again, so that a
+	// memtable can be sealed BEFORE an L0->L0 compaction and flushed (rf) AFTER it: the
+	// compaction output then has a higher file id than the younger flushed table
+	L0L0 bool
 }
 
 var probes = []uint64{1, 2, 3, 4, math.MaxUint64}
@@ -62,19 +66,20 @@ func configs(r *vr.Run) []config {
 	mono := []string{"vset:d:a:2:s", "vdel:d:a:2", "vset:d:a:3:s", "vdel:d:a:3", "vset:d:ab:2:s", "vset:w:a:2:s"}
 	if r.Quick() {
 		return []config{
-			{"allvers-skiplist", skip, allvers, 3, 2, 5, false, false, false},
-			{"allvers-art", art, allvers, 2, 3, 5, false, false, false},
-			{"repeat-gc-reopen", skip, repeat[:4], 3, 3, 6, true, true, false},
-			{"deep-macro", skip, repeat[:4], 3, 6, 9, false, false, true},
+			{"allvers-skiplist", skip, allvers, 3, 2, 5, false, false, false, false},
+			{"allvers-art", art, allvers, 2, 3, 5, false, false, false, false},
+			{"repeat-gc-reopen", skip, repeat[:4], 3, 3, 6, true, true, false, false},
+			{"deep-macro", skip, repeat[:4], 3, 6, 9, false, false, true, false},
 		}
 	}
 	return []config{
-		{"allvers-skiplist", skip, allvers, 4, 3, 7, false, true, false},
-		{"allvers-art", art, allvers, 3, 4, 7, false, true, false},
-		{"repeat-gc-reopen", skip, repeat, 4, 5, 9, true, true, false},
-		{"repeat-gc-art-2buckets", art, repeat, 3, 5, 8, true, true, false},
-		{"mono-wide", skip, mono, 4, 4, 8, false, true, false},
-		{"deep-macro", skip, repeat, 5, 9, 14, true, true, true},
+		{"allvers-skiplist", skip, allvers, 4, 3, 7, false, true, false, false},
+		{"allvers-art", art, allvers, 3, 4, 7, false, true, false, false},
+		{"repeat-gc-reopen", skip, repeat, 4, 5, 9, true, true, false, false},
+		{"repeat-gc-art-2buckets", art, repeat, 3, 5, 8, true, true, false, false},
+		{"mono-wide", skip, mono, 4, 4, 8, false, true, false, false},
+		{"deep-macro", skip, repeat, 5, 9, 14, true, true, true, false},
+		{"l0l0-then-flush", skip, []string{"vset:d:a:2:s", "vdel:d:a:2"}, 5, 8, 13, false, true, true, true},
 	}
 }
 
@@ -82,6 +87,17 @@ func params(c config, dir string, budget bool) *kvseq.Params {
 	p := &kvseq.Params{Cfg: c.Cfg, ClientOps: c.Ops, MaxClient: c.MaxClient, MaxMaint: c.MaxMaint,
 		WithGC: c.GC, WithReopen: c.Reopen, Macro: c.Macro, Dedup: true, BaseDir: dir,
 		Versioned: true, ProbeVers: probes, RichSig: true, MeasureGC: true}
+	if c.L0L0 {
+		p.ExtraMaint = func(menu []string) []string {
+			for _, op := range menu {
+				if op == "l0-l0" {
+					// seal without flushing; the later "rf" flushes the sealed memtable
+					return append(menu, "rotate")
+				}
+			}
+			return menu
+		}
+	}
 	if !budget {
 		p.MaxClient, p.MaxMaint, p.Dedup = 99, 99, false
 	}
@@ -261,6 +277,9 @@ func replay(r *vr.Run, cfgs []config, name string, path []string) {
 		for i, op := range path {
 			if _, err := in.Apply(op); err != nil {
 				vr.Fatalf("replay step %d %q: %v", i, op, err)
+			}
+			if os.Getenv("VERIF_SHAPE") != "" { // debugging aid: LSM shape after every replayed step
+				fmt.Printf("replay: after step %d (%s):\n%s", i, op, in.(*kvseq.Inst).H.DB.VerifLSM().VerifShape(true))
 			}
 			if sig, desc := in.Check(); sig != "" {
 				fmt.Printf("replay: violation after step %d (%s): %s\n", i, op, desc)
